@@ -59,6 +59,7 @@ structure Flags where
   recipSetsUnits : Bool      -- the mixins' `__rtruediv__` set `units = x.units / self.units`
   omegaNeedsQuantity : Bool  -- the omega-domain cases of `__compat_add__` sit under a quantity test
   canonFoldsHertz : Bool     -- `simplify_units` writes Hz as 1/s in units that have no named equivalent
+  canonicalOnlyPrinting : Bool  -- every read of `state.canonical_units` sits in a `_pexpr` printing property
   deriving DecidableEq, Repr
 
 structure Tables where
